@@ -182,7 +182,7 @@ section Grid
 variable {α : Type} [Field α] [LinearOrder α] [IsStrictOrderedRing α] [FloorRing α]
 
 /-- exact-arithmetic instance of the number operations -/
-def exactOps : Ops α := ⟨Nat.cast, Nat.ceil, 0, 1 / 2⟩
+def exactOps : Ops α := ⟨Nat.cast, Nat.ceil, 0, 1 / 2, fun _ _ => 0⟩
 
 /-- the grid is `lower, lower+precision, lower+2·precision, …` -/
 theorem grid_eq_map (tol lo hi p : α) :
@@ -278,30 +278,47 @@ theorem spaceSize_eq_prod {β : Type} (gs : List (List β)) :
     | cons g gs ih => intro acc; simp [ih, Nat.mul_assoc]
   simpa using this 1
 
-/-- the code's end-point tolerance is positive and at most half a step -/
-theorem codeTol_bounds (tolMax p : α) (ht : 0 < tolMax) (hp : 0 < p) :
-    0 < codeTol exactOps tolMax p ∧ codeTol exactOps tolMax p ≤ p / 2 ∧ codeTol exactOps tolMax p ≤ tolMax := by
+/-- the code's end-point tolerance is positive and at most half a step (exact arithmetic: spacing 0) -/
+theorem codeTol_bounds (tolMax lo hi p : α) (ht : 0 < tolMax) (hp : 0 < p) :
+    0 < codeTol exactOps tolMax lo hi p ∧ codeTol exactOps tolMax lo hi p ≤ p / 2 ∧ codeTol exactOps tolMax lo hi p ≤ tolMax := by
   unfold codeTol
   have hh : (exactOps : Ops α).half = 1 / 2 := rfl
+  have hs : (exactOps : Ops α).spacing2 lo hi = 0 := rfl
+  simp only [hs]
+  rw [if_neg (not_lt.mpr ht.le)]
   by_cases h : (exactOps : Ops α).half * p < tolMax
   · rw [if_pos h]; rw [hh] at h ⊢; exact ⟨by positivity, by linarith, h.le⟩
   · rw [if_neg h]; rw [hh] at h; push_neg at h; exact ⟨ht, by linarith, le_refl _⟩
 
-/-- **the grid the code builds** (tolerance `min(tolMax, precision/2)`), for every positive precision: when the
+/-- for **any** spacing term (binary64: twice the gap between adjacent numbers at the magnitude of the bounds) the
+tolerance stays positive and at most half a step — so the "ends at the bound" theorem below applies to it as well -/
+theorem codeTol_bounds_any (ops : Ops α) (hhalf : ops.half = 1 / 2) (tolMax lo hi p : α) (ht : 0 < tolMax) (hp : 0 < p) :
+    0 < codeTol ops tolMax lo hi p ∧ codeTol ops tolMax lo hi p ≤ p / 2 := by
+  unfold codeTol
+  simp only
+  have ht' : 0 < (if tolMax < ops.spacing2 lo hi then ops.spacing2 lo hi else tolMax) := by
+    by_cases h : tolMax < ops.spacing2 lo hi
+    · rw [if_pos h]; linarith
+    · rw [if_neg h]; exact ht
+  by_cases h : ops.half * p < (if tolMax < ops.spacing2 lo hi then ops.spacing2 lo hi else tolMax)
+  · rw [if_pos h]; rw [hhalf]; exact ⟨by positivity, by linarith⟩
+  · rw [if_neg h]; rw [hhalf] at h; push_neg at h; exact ⟨ht', by linarith⟩
+
+/-- **the grid the code builds**, for every positive precision: when the
 range is a multiple of the precision it has exactly `m + 1` points and ends at the upper bound itself -/
 theorem code_grid_hits_bound (tolMax lo hi p : α) (m : ℕ) (ht : 0 < tolMax) (hp : 0 < p) (hm : hi - lo = (m : α) * p) :
-    (grid exactOps (codeTol exactOps tolMax p) lo hi p).length = m + 1 ∧
-    (grid exactOps (codeTol exactOps tolMax p) lo hi p).getLast? = some hi := by
-  obtain ⟨h0, h1, _⟩ := codeTol_bounds tolMax p ht hp
+    (grid exactOps (codeTol exactOps tolMax lo hi p) lo hi p).length = m + 1 ∧
+    (grid exactOps (codeTol exactOps tolMax lo hi p) lo hi p).getLast? = some hi := by
+  obtain ⟨h0, h1, _⟩ := codeTol_bounds tolMax lo hi p ht hp
   exact grid_hits_bound _ lo hi p m hp hm h0 (by linarith)
 
 /-- in general it ends at the last step not beyond the upper bound, up to the tolerance: every element is below
 `upper + min(tolMax, precision/2)`, and one more step would not be -/
 theorem code_grid_last (tolMax lo hi p : α) (ht : 0 < tolMax) (hp : 0 < p) :
-    (∀ x ∈ grid exactOps (codeTol exactOps tolMax p) lo hi p, lo ≤ x ∧ x < hi + tolMax ∧ x < hi + p / 2) ∧
-    (∀ n, (grid exactOps (codeTol exactOps tolMax p) lo hi p).length = n → hi < lo + (n : α) * p) := by
-  obtain ⟨h0, h1, h2⟩ := codeTol_bounds tolMax p ht hp
-  obtain ⟨ha, hb⟩ := grid_last (codeTol exactOps tolMax p) lo hi p hp
+    (∀ x ∈ grid exactOps (codeTol exactOps tolMax lo hi p) lo hi p, lo ≤ x ∧ x < hi + tolMax ∧ x < hi + p / 2) ∧
+    (∀ n, (grid exactOps (codeTol exactOps tolMax lo hi p) lo hi p).length = n → hi < lo + (n : α) * p) := by
+  obtain ⟨h0, h1, h2⟩ := codeTol_bounds tolMax lo hi p ht hp
+  obtain ⟨ha, hb⟩ := grid_last (codeTol exactOps tolMax lo hi p) lo hi p hp
   refine ⟨fun x hx => ?_, fun n hn => ?_⟩
   · obtain ⟨a, b⟩ := ha x hx; exact ⟨a, by linarith, by linarith⟩
   · have := hb n hn; linarith
@@ -323,7 +340,7 @@ theorem grid_overshoots_small_precision :
     norm_num
 
 theorem small_precision_repaired :
-    let g := grid (α := ℚ) exactOps (codeTol exactOps (1/10000000) (1/40000000)) 0 (1/1000000) (1/40000000)
+    let g := grid (α := ℚ) exactOps (codeTol exactOps (1/10000000) 0 (1/1000000) (1/40000000)) 0 (1/1000000) (1/40000000)
     g.length = 41 ∧ g.getLast? = some (1/1000000) :=
   code_grid_hits_bound (α := ℚ) (1/10000000) 0 (1/1000000) (1/40000000) 40 (by norm_num) (by norm_num) (by norm_num)
 
